@@ -145,6 +145,48 @@ fn child_main(owner_pid: i32, script: &[Op]) {
                     }
                 }
             }
+            "create" | "open" | "ooc" => {
+                // C06: service creation / opening with settings (create) or requirements (open)
+                if node.is_none() {
+                    continue;
+                }
+                if pubsub.is_some() {
+                    remote::observe("svc_dropping");
+                    pubsub = None;
+                    remote::observe("svc_dropped");
+                }
+                let n = node.as_ref().unwrap();
+                let name: ServiceName = "vsim/proc/c06".try_into().unwrap();
+                let (mp, ms, h) = (o.arg(0) as usize, o.arg(1) as usize, o.arg(2) as usize);
+                let b = n.service_builder(&name).publish_subscribe::<Pay>().max_publishers(mp).max_subscribers(ms).history_size(h).subscriber_max_buffer_size(2).max_nodes(6);
+                let r = match o.c.as_str() {
+                    "create" => b.create().map_err(|e| format!("{e:?}")),
+                    "open" => b.open().map_err(|e| format!("{e:?}")),
+                    _ => b.open_or_create().map_err(|e| format!("{e:?}")),
+                };
+                match r {
+                    Ok(sv) => {
+                        let c = sv.static_config();
+                        remote::observe(&format!("svc_ok {} cfg={},{},{}", o.c, c.max_publishers(), c.max_subscribers(), c.history_size()));
+                        // a handle that was handed out must be fully usable at once
+                        let _ = sv.dynamic_config().number_of_publishers();
+                        match sv.subscriber_builder().create() {
+                            Ok(p) => drop(p),
+                            Err(iceoryx2::port::subscriber::SubscriberCreateError::ExceedsMaxSupportedSubscribers) => {}
+                            Err(e) => remote::observe(&format!("svc_unusable {e:?}")),
+                        }
+                        pubsub = Some(sv);
+                    }
+                    Err(e) => remote::observe(&format!("svc_err {} {e}", o.c)),
+                }
+            }
+            "dropsvc" => {
+                if pubsub.is_some() {
+                    remote::observe("svc_dropping");
+                    pubsub = None;
+                    remote::observe("svc_dropped");
+                }
+            }
             "hold" => remote::sleep_ns(o.arg(0) as u64 * 1_000_000),
             "dropall" => {
                 publisher = None;
@@ -195,6 +237,9 @@ fn child_main(owner_pid: i32, script: &[Op]) {
     }
     // orderly exit: drop everything
     remote::observe("phase 999 exit");
+    if pubsub.is_some() {
+        remote::observe("svc_dropping");
+    }
     drop(publisher);
     drop(subscriber);
     drop(keep);
@@ -307,6 +352,135 @@ impl ProcHarness {
         (None, probes)
     }
 
+    fn judge_c06(&self, _plan: &Plan, run: &ProcRun, owner_pid: i32) -> (Option<Violation>, Vec<(&'static str, u64)>) {
+        let mut probes: Vec<(&'static str, u64)> = Vec::new();
+        // handles: (process, kind, cfg, certainly-alive interval [start, end) in event indices)
+        struct H {
+            proc_: usize,
+            kind: String,
+            cfg: String,
+            start: usize,
+            end: usize,
+            req: (i64, i64, i64),
+        }
+        let mut handles: Vec<H> = Vec::new();
+        let mut open_calls: Vec<(usize, usize, usize, String, (i64, i64, i64), String)> = Vec::new(); // (proc, inv, ret, kind, req, result)
+        for pi in 0..run.yields_per_child.len() {
+            let mut cur: Option<usize> = None;
+            let mut last_phase: Option<(usize, String, (i64, i64, i64))> = None;
+            for (c, t, e) in run.obs.iter().filter(|o| o.0 == pi) {
+                let _ = c;
+                if let Some(rest) = t.strip_prefix("phase ") {
+                    let mut it = rest.split(' ');
+                    let opi: usize = it.next().and_then(|x| x.parse().ok()).unwrap_or(0);
+                    let name = it.next().unwrap_or("").to_string();
+                    if name == "create" || name == "open" || name == "ooc" {
+                        let a = _plan.threads[pi].get(opi).map(|o| (o.arg(0), o.arg(1), o.arg(2))).unwrap_or((0, 0, 0));
+                        last_phase = Some((*e, name, a));
+                    }
+                } else if let Some(rest) = t.strip_prefix("svc_ok ") {
+                    let mut it = rest.split(' ');
+                    let kind = it.next().unwrap_or("").to_string();
+                    let cfg = it.next().unwrap_or("").to_string();
+                    let (inv, _, req) = last_phase.clone().unwrap_or((*e, kind.clone(), (0, 0, 0)));
+                    open_calls.push((pi, inv, *e, kind.clone(), req, format!("ok {cfg}")));
+                    handles.push(H { proc_: pi, kind, cfg, start: *e, end: usize::MAX, req });
+                    cur = Some(handles.len() - 1);
+                    probes.push(("service_handles", 1));
+                } else if let Some(rest) = t.strip_prefix("svc_err ") {
+                    let mut it = rest.splitn(2, ' ');
+                    let kind = it.next().unwrap_or("").to_string();
+                    let err = it.next().unwrap_or("").to_string();
+                    let (inv, _, req) = last_phase.clone().unwrap_or((*e, kind.clone(), (0, 0, 0)));
+                    open_calls.push((pi, inv, *e, kind, req, format!("err {err}")));
+                    probes.push(("service_call_errors", 1));
+                } else if t == "svc_dropping" {
+                    if let Some(h) = cur.take() {
+                        handles[h].end = *e;
+                    }
+                } else if t.starts_with("svc_unusable") {
+                    return (viol("half-initialised", format!("process {pi} obtained a service handle on which a port could not be created at once: {t}")), probes);
+                }
+            }
+        }
+        let overlap = |a: &H, b: &H| a.start < b.end && b.start < a.end;
+        // signature of a known finding: a process that is still dropping the previous instance of the service
+        // removes (by name) the static config file that another process has re-created in the meantime
+        let mut late_remove = false;
+        for (a, ea) in run.events.iter().enumerate() {
+            if ea.kind == "open-create" && ea.detail.ends_with(".service") {
+                for eb in run.events.iter().skip(a + 1) {
+                    if eb.kind == "remove" && eb.detail == ea.detail {
+                        if eb.child != ea.child {
+                            late_remove = true;
+                        }
+                        break; // the first removal after this creation decides
+                    }
+                }
+            }
+        }
+        // (1) all certainly-overlapping handles belong to one creation: same complete settings
+        for i in 0..handles.len() {
+            for j in i + 1..handles.len() {
+                if overlap(&handles[i], &handles[j]) && handles[i].cfg != handles[j].cfg {
+                    return (viol(if late_remove { "divergent-settings-after-late-remove" } else { "divergent-settings" }, format!("processes {} and {} hold the service at the same time with different settings ({} vs {})", handles[i].proc_, handles[j].proc_, handles[i].cfg, handles[j].cfg)), probes);
+                }
+            }
+        }
+        // (2) a successful create never overlaps another live handle that started earlier
+        for i in 0..handles.len() {
+            if handles[i].kind == "create" {
+                let want = format!("cfg={},{},{}", handles[i].req.0, handles[i].req.1, handles[i].req.2);
+                if handles[i].cfg != want {
+                    return (viol("creator-settings", format!("process {} created the service with {:?} but its handle reports {}", handles[i].proc_, handles[i].req, handles[i].cfg)), probes);
+                }
+                for j in 0..handles.len() {
+                    if i != j && overlap(&handles[i], &handles[j]) && handles[j].start < handles[i].start {
+                        // j was alive during the whole create call of i if it started before the call was invoked
+                        let inv = open_calls.iter().find(|c| c.0 == handles[i].proc_ && c.2 == handles[i].start).map(|c| c.1).unwrap_or(handles[i].start);
+                        if handles[j].start < inv {
+                            return (viol("two-creators", format!("process {} created the service although process {} held it during the whole call", handles[i].proc_, handles[j].proc_)), probes);
+                        }
+                    }
+                }
+            }
+        }
+        // (3) an open whose requirement cannot be met by the service that is alive during the whole call must fail
+        for (pi, inv, ret, kind, req, res) in open_calls.iter() {
+            if kind != "open" && kind != "ooc" {
+                continue;
+            }
+            for h in handles.iter() {
+                if h.proc_ != *pi && h.start < *inv && h.end > *ret {
+                    // the service with h.cfg existed during the whole call
+                    let cfg: Vec<i64> = h.cfg.trim_start_matches("cfg=").split(',').filter_map(|x| x.parse().ok()).collect();
+                    if cfg.len() == 3 {
+                        let compatible = cfg[0] >= req.0 && cfg[1] >= req.1 && cfg[2] >= req.2;
+                        if !compatible && res.starts_with("ok") {
+                            return (viol("incompatible-open-accepted", format!("process {pi} opened the service (settings {:?}) with the incompatible requirement {:?}", cfg, req)), probes);
+                        }
+                        if compatible && res.starts_with("err") && !res.contains("ExceedsMaxNumberOfNodes") {
+                            return (viol(if late_remove { "compatible-open-refused-after-late-remove" } else { "compatible-open-refused" }, format!("process {pi} could not {kind} the service (settings {:?}, alive during the whole call) with the compatible requirement {:?}: {res}", cfg, req)), probes);
+                        }
+                        if !compatible {
+                            probes.push(("incompatible_open_refused", 1));
+                        }
+                    }
+                }
+            }
+            if res.contains("HangsInCreation") || res.contains("ServiceInCorruptedState") || res.contains("InternalFailure") {
+                return (viol("undocumented-outcome", format!("process {pi}: {kind} with {:?} ended with {res} although nobody crashed", req)), probes);
+            }
+        }
+        // (4) after the last user is gone the service's resources are gone
+        let left = leftovers("pr", owner_pid);
+        let svc_left: Vec<&String> = left.iter().filter(|p| p.ends_with(".service") || p.ends_with(".dynamic")).collect();
+        if !svc_left.is_empty() {
+            return (viol("service-leftover", format!("all users dropped the service but its resources remain: {svc_left:?}")), probes);
+        }
+        (None, probes)
+    }
+
     fn judge_c04(&self, plan: &Plan, run: &ProcRun, owner_pid: i32) -> (Option<Violation>, Vec<(&'static str, u64)>) {
         let mut probes: Vec<(&'static str, u64)> = Vec::new();
         let victim = plan.p("victim") as usize;
@@ -405,10 +579,18 @@ impl ProcHarness {
 
 impl Harness for ProcHarness {
     fn name(&self) -> &'static str {
-        if self.kind == "c07" { "c07.node_liveness" } else { "c04.crash_cleanup" }
+        match self.kind {
+            "c07" => "c07.node_liveness",
+            "c06" => "c06.service_creation",
+            _ => "c04.crash_cleanup",
+        }
     }
     fn property(&self) -> &'static str {
-        if self.kind == "c07" { "C07" } else { "C04" }
+        match self.kind {
+            "c07" => "C07",
+            "c06" => "C06",
+            _ => "C04",
+        }
     }
     fn modes(&self) -> Vec<(&'static str, u32, bool)> {
         vec![("proc", 1, true)]
@@ -425,7 +607,27 @@ impl Harness for ProcHarness {
     fn generate(&self, r: &mut sim::rng::Rng, mode: &str) -> (Plan, CfgSer) {
         let mut params = BTreeMap::new();
         let mut threads = Vec::new();
-        if self.kind == "c07" {
+        if self.kind == "c06" {
+            // 2..4 processes create / open / open_or_create / drop the same service name with their own settings
+            let np = r.range(2, 4);
+            for _ in 0..np {
+                let mut v = vec![Op::new("node", &[0])];
+                for _ in 0..r.range(1, 4) {
+                    let (mp, ms, h) = (r.range(2, 3), r.range(2, 3), r.range(0, 1));
+                    let k = r.below(10);
+                    v.push(Op::new(if k < 3 { "create" } else if k < 6 { "open" } else { "ooc" }, &[mp, ms, h]));
+                    if r.chance(0.6) {
+                        v.push(Op::new("hold", &[r.range(0, 3)]));
+                    }
+                    if r.chance(0.7) {
+                        v.push(Op::new("dropsvc", &[]));
+                    }
+                }
+                threads.push(v);
+            }
+            params.insert("victim".into(), 99);
+            params.insert("kill".into(), 0);
+        } else if self.kind == "c07" {
             // P0 victim: node life cycle; P1..: monitors / cleaners
             let mut v = vec![("node", 0)];
             if r.chance(0.5) {
@@ -544,7 +746,11 @@ impl Harness for ProcHarness {
         let run = run_proc(&roles, &cm, &mut d, cfg.step_cap, &normalise);
         let (mut violation, mut probes) = match run.outcome {
             ProcOutcome::Ok => {
-                if self.kind == "c07" { self.judge_c07(plan, &run) } else { self.judge_c04(plan, &run, owner_pid) }
+                match self.kind {
+                    "c07" => self.judge_c07(plan, &run),
+                    "c06" => self.judge_c06(plan, &run, owner_pid),
+                    _ => self.judge_c04(plan, &run, owner_pid),
+                }
             }
             _ => (None, vec![]),
         };
